@@ -109,6 +109,8 @@ type Sim struct {
 	M       *Model
 	ids     [NumTypes]ecs.ID
 	pads    []ecs.ID
+	// rejTargets: targets of batches from whose callback a rejected call was made on the same mapper (value: epoch)
+	rejTargets map[ecs.Entity]int
 	scratch *ecs.World  // a second world of the process (observer objects that served another world)
 	primeW  *ecs.World  // a third world, never modified: type-based relation arguments are used there first
 	resPads []ecs.ResID // dynamically registered resource types (C18)
